@@ -192,6 +192,10 @@ class ICMP(Service, discriminator="icmp"):
         :param kwargs: Additional keyword arguments.
         :return: True if the payload was processed successfully, otherwise False.
         """
+        # like every other service: do nothing unless the service is running on a powered-on node
+        if not super().receive(payload, session_id, **kwargs):
+            return False
+
         frame: Frame = kwargs["frame"]
         from_network_interface = kwargs["from_network_interface"]
 
